@@ -11,7 +11,10 @@ Fresh == [scn |-> 0, onbus |-> {}, live |-> <<>>, rules |-> <<>>, proxies |-> {}
 Init == tr = Rec /\ pos = 0 /\ ms = Fresh
 Report(what, detail) == PrintT(<<"MISMATCH", ToJson([line |-> pos + 1, id |-> ms.scn, what |-> what, detail |-> detail])>>)
 RuleOfS(s) == LET I == {i \in 1..Len(ms.rules) : ms.rules[i][1] = s} IN IF I = {} THEN "" ELSE ms.rules[CHOOSE i \in I : TRUE][2]
-LiveRules == {ms.live[i][2] : i \in 1..Len(ms.live)}
+TypeOfS(s) == LET I == {i \in 1..Len(ms.rules) : ms.rules[i][1] = s} IN IF I = {} THEN "signal" ELSE ms.rules[CHOOSE i \in I : TRUE][3]
+\* a signal subscription: the rule asks for signals, or names no message type at all (then it matches signals too)
+IsSignalSub(x) == x[3] \in {"signal", ""}
+LiveRules == {ms.live[i][2] : i \in {j \in 1..Len(ms.live) : IsSignalSub(ms.live[j])}}
 Check(e) ==
   CASE e.ev = "BusAddMatch" -> (e.rule \notin ms.onbus \/ Report("c37-rule-added-twice", e))
     [] e.ev = "BusRemoveMatch" ->
@@ -27,10 +30,10 @@ Upd(e) ==
   CASE e.ev = "Reset" -> [Fresh EXCEPT !.scn = e.scn]
     [] e.ev = "BusAddMatch" -> [ms EXCEPT !.onbus = @ \cup {e.rule}]
     [] e.ev = "BusRemoveMatch" -> [ms EXCEPT !.onbus = @ \ {e.rule}]
-    [] e.ev = "SubStart" -> [ms EXCEPT !.rules = Append(@, <<e.stream, e.rule>>)]
-    [] e.ev = "Subscribed" -> IF e.result = "ok" THEN [ms EXCEPT !.live = Append(@, <<e.stream, RuleOfS(e.stream)>>)]
-                              ELSE IF e.result = "clone" THEN [ms EXCEPT !.live = Append(@, <<e.stream, RuleOfS(e.parent)>>),
-                                                                         !.rules = Append(@, <<e.stream, RuleOfS(e.parent)>>), !.cloned = TRUE]
+    [] e.ev = "SubStart" -> [ms EXCEPT !.rules = Append(@, <<e.stream, e.rule, IF "rtype" \in DOMAIN e THEN e.rtype ELSE "signal">>)]
+    [] e.ev = "Subscribed" -> IF e.result = "ok" THEN [ms EXCEPT !.live = Append(@, <<e.stream, RuleOfS(e.stream), TypeOfS(e.stream)>>)]
+                              ELSE IF e.result = "clone" THEN [ms EXCEPT !.live = Append(@, <<e.stream, RuleOfS(e.parent), TypeOfS(e.parent)>>),
+                                                                         !.rules = Append(@, <<e.stream, RuleOfS(e.parent), TypeOfS(e.parent)>>), !.cloned = TRUE]
                               ELSE ms
     [] e.ev \in {"StreamDrop", "StreamEnd"} -> [ms EXCEPT !.live = SelectSeq(@, LAMBDA x : x[1] # e.stream)]
     [] e.ev = "ProxySubscribed" -> [ms EXCEPT !.proxies = @ \cup {e.proxy}]
